@@ -36,6 +36,7 @@ type Engine struct {
 	needPrivate map[privKey]bool
 	needNode map[privKey]bool
 	sentParamSet map[string]bool
+	nilParamSet  map[string]bool
 	sweepCtrs map[*ssa.Function]*Contract
 	writtenKeys map[string]bool // struct-field heap keys stored to through a pointer that is not a fresh allocation of the storing function
 	pkgSpecs map[string]map[string]*SpecFunc
